@@ -12,7 +12,8 @@
    rounded decimal power, which the run-time check compares with the table read from the implementation.
    The *specification* scales of the property are [scaleD_spec] (smallest power of two strictly above 10^p,
    computed from exact integer logarithms) and [pow10_spec]. *)
-From Clip Require Import base.Geom base.FloatModel.
+From Clip Require Import base.Geom.
+From Clip Require Import base.FloatModel.
 From Coq Require Import ZArith List Floats QArith Bool.
 Import ListNotations.
 Local Open Scope Z_scope.
@@ -162,9 +163,21 @@ Definition in_coord_range (s : float) (ps : fpaths) : bool := all_pts (prod_with
 Definition is_finite (x : float) : bool := match F_decode x with Some _ => true | None => false end.
 Definition is_nanb (x : float) : bool := negb (feqb x x).
 
+(* run-time evaluation of the step C16_range_guard_partial leaves unproved: when ScalePaths' bounds test passes (positive
+   scales), every coordinate converts to an integer within +-2^61 unless the input contains a NaN *)
+Definition has_nan (ps : fpaths) : bool :=
+  existsb (fun p => existsb (fun q => is_nanb (fst q) || is_nanb (snd q)) p) ps.
+Definition within61 (o : option paths) : bool :=
+  match o with
+  | Some ps => forallb (fun p => forallb (fun q => (Z.abs (fst q) <=? 2 ^ 61) && (Z.abs (snd q) <=? 2 ^ 61)) p) ps
+  | None => false
+  end.
+Definition range_guard_check (sx sy : float) (ps : fpaths) : bool :=
+  if range_ok sx sy ps then has_nan ps || within61 (scale_paths_raw sx sy ps) else true.
+
 (* ---------- tiny sanity examples ---------- *)
 Example pow10_spec_2 : pow10_spec 2 = 100%float. Proof. reflexivity. Qed.
-Example pow10_spec_m2 : pow10_spec (-2) = 0.01%float. Proof. reflexivity. Qed.
+Example pow10_spec_m2 : pow10_spec (-2) = 0x1.47ae147ae147bp-7%float. Proof. reflexivity. Qed.
 Example scaleD_2 : scaleD_model pow10_spec 2 = 128%float /\ scaleD_spec 2 = 128%float. Proof. split; reflexivity. Qed.
 Example scaleD_0 : scaleD_spec 0 = 2%float. Proof. reflexivity. Qed.
 Example scaleD_m1 : scaleD_spec (-1) = 0.125%float. Proof. reflexivity. Qed.
